@@ -23,7 +23,8 @@ CONSTANTS NW,        \* number of workers (ranks 0..NW-1)
           MaxTag,    \* thread tags 0..MaxTag (tag 0 = main thread)
           MaxObj,    \* ids of synchronisation objects 1..MaxObj
           MaxL,      \* spin-lock ids 1..MaxL
-          MaxQ       \* sleep queue / sleep stack ids 1..MaxQ
+          MaxQ,      \* sleep queue / sleep stack ids 1..MaxQ
+          NKeys      \* number of thread-specific keys (1024 in the library)
 
 W   == 0..(NW-1)
 D   == 0..MaxD
@@ -84,7 +85,7 @@ NoTh == [st |-> "none", jt |-> 0, det |-> FALSE, res |-> 0, saved |-> FALSE,
          wl |-> <<>>]      \* threads collected by a wake-many loop, not yet pushed
 NoStk == [st |-> "none", own |-> 0, lo |-> 0, hi |-> 0, kind |-> 0, idx |-> 0]
 NoTg == [par |-> -1, d |-> 0, ran |-> 0, reaped |-> 0, endv |-> 0, ended |-> FALSE,
-         flags |-> 0, hs |-> "none", cell |-> 0]
+         flags |-> 0, hs |-> "none", cell |-> 0, creq |-> FALSE]
 
 \* thread t is the one whose code worker w is executing (not inside a callback)
 Runs(w, t) == cur[w] = t /\ t # 0 /\ cb[w].k = "none" /\ got[w] = 0
@@ -119,7 +120,15 @@ gh0 == [mown |-> [o \in Obj |-> 0],      \* descriptor holding mutex o (user lev
         onrun |-> [o \in Obj |-> 0], ondone |-> [o \in Obj |-> 0],
         ucsig |-> [o \in Obj |-> 0], ucwake |-> [o \in Obj |-> 0],
         \* sleep queue / stack that belongs to each object (learnt at first use, then fixed)
-        qmx |-> [o \in Obj |-> 0], qcv |-> [o \in Obj |-> 0], qbr |-> [o \in Obj |-> 0], qjc |-> [o \in Obj |-> 0]]
+        qmx |-> [o \in Obj |-> 0], qcv |-> [o \in Obj |-> 0], qbr |-> [o \in Obj |-> 0], qjc |-> [o \in Obj |-> 0],
+        \* thread-specific data.  Key allocator: lock-free free list over cells 0..NKeys-1
+        \* (kfree = head, -1 = empty; knext[k] = next cell, -1 = end, -2 = "in use" marker)
+        klock |-> -1,                      \* worker holding the allocator's lock
+        kfree |-> 0, knext |-> [k \in 0..(NKeys - 1) |-> IF k = NKeys - 1 THEN -1 ELSE k + 1],
+        klive |-> {},                      \* keys handed out and not deleted (user view)
+        kdt |-> [k \in 0..(NKeys - 1) |-> 0], \* destructor registered with the key (0 = none)
+        kval |-> [d \in D |-> {}],         \* kval[d] = set of <<key, value>> with a non-NULL value
+        kpend |-> [d \in D |-> {}]]        \* destructor calls <<destructor, value>> owed by a terminating thread
 CoreInit ==
   /\ cur = cur0 /\ got = got0 /\ cb = cb0 /\ runq = runq0 /\ th = th0 /\ lk = lk0 /\ stk = stk0
   /\ freeD = freeD0 /\ freeS = freeS0 /\ flS = flS0
@@ -241,9 +250,12 @@ SpinAcq(w, l) ==
   /\ LET me == cur[w] pc == th[me].pc IN
      \/ /\ pc.k = "fin0" /\ th[me].lk = l
         /\ th' = SetPc(me, [pc EXCEPT !.k = "fin1"])
-     \/ /\ pc.k \in {"jn0", "tj0", "dt1"} /\ th[pc.x].lk = l
-        /\ th' = SetPc(me, [pc EXCEPT !.k = IF pc.k = "jn0" THEN "jn1" ELSE IF pc.k = "tj0" THEN "tj1" ELSE "dt2"])
-  /\ UNCHANGED <<cur, got, cb, runq, stk, freeD, freeS, flS, nD, nS, nL, anw, tg, bad, sv>>
+        /\ bad' = IF gh.kpend[me] # {} THEN Fail("C11: thread terminated without calling a destructor it owes") ELSE bad
+     \/ /\ pc.k \in {"jn0", "tj0", "dt1", "cn0"} /\ th[pc.x].lk = l
+        /\ th' = SetPc(me, [pc EXCEPT !.k = CASE pc.k = "jn0" -> "jn1" [] pc.k = "tj0" -> "tj1" [] pc.k = "dt1" -> "dt2" [] OTHER -> "cn1"])
+        /\ bad' = bad
+     \/ /\ pc.k = "tc0" /\ th[me].lk = l /\ th' = SetPc(me, [pc EXCEPT !.k = "tc1"]) /\ bad' = bad
+  /\ UNCHANGED <<cur, got, cb, runq, stk, freeD, freeS, flS, nD, nS, nL, anw, tg, sv>>
 
 \* release; the stage decides what the release completes
 SpinRel(w, l) ==
@@ -251,19 +263,22 @@ SpinRel(w, l) ==
   /\ \/ /\ cb[w].k = "fin" /\ cb[w].x = l /\ cb[w].s \in {2, 3}  \* finisher: after Publish (3), or detached (2)
         /\ (cb[w].s = 2 => th[cb[w].t].det)
         /\ cb' = [cb EXCEPT ![w].s = IF cb[w].s = 3 THEN 5 ELSE 4]
-        /\ th' = th
+        /\ th' = th /\ tg' = tg
      \/ /\ cb[w].k = "join" /\ th[cb[w].x].lk = l /\ cb[w].s = 1   \* join callback: after JoinSet
-        /\ cb' = [cb EXCEPT ![w].s = 2] /\ th' = th
+        /\ cb' = [cb EXCEPT ![w].s = 2] /\ th' = th /\ tg' = tg
      \/ /\ cb[w].k = "none" /\ Runs(w, cur[w])
         /\ LET me == cur[w] pc == th[me].pc IN
-           /\ pc.k \in {"jn2f", "tj2", "dt3", "dt4"}
+           /\ pc.k \in {"jn2f", "tj2", "dt3", "dt4", "cn1", "tc1"}
            /\ th[pc.x].lk = l
            /\ th' = SetPc(me, [pc EXCEPT !.k = CASE pc.k = "jn2f" -> "jn3"
                                                   [] pc.k = "tj2" -> (IF pc.z = 1 THEN "jn3" ELSE "tj9")
                                                   [] pc.k = "dt3" -> "dt5"     \* finished: free the record
-                                                  [] pc.k = "dt4" -> "dt9"])
+                                                  [] pc.k = "dt4" -> "dt9"
+                                                  [] pc.k = "cn1" -> "cn9"
+                                                  [] pc.k = "tc1" -> "tc2"])
+           /\ tg' = IF pc.k = "cn1" THEN [tg EXCEPT ![pc.y].creq = TRUE] ELSE tg
         /\ cb' = cb
-  /\ UNCHANGED <<cur, got, runq, stk, freeD, freeS, flS, nD, nS, nL, anw, tg, bad, sv>>
+  /\ UNCHANGED <<cur, got, runq, stk, freeD, freeS, flS, nD, nS, nL, anw, bad, sv>>
 
 \* ------------------------------------------------------------------ create
 UCreateCall(w, ptag, ctag, flags) ==
@@ -283,7 +298,8 @@ DescAlloc(w, rank, c, l, fresh) ==
           /\ freeD' = [freeD EXCEPT ![w] = Tail(@)] /\ UNCHANGED <<nD, nL>>
      ELSE /\ fresh = 1 /\ c = nD + 1 /\ l = nL + 1
           /\ nD' = nD + 1 /\ nL' = nL + 1 /\ freeD' = freeD
-  /\ UNCHANGED <<cur, got, cb, runq, lk, stk, freeS, flS, nS, anw, tg, bad, sv>>
+  /\ gh' = [gh EXCEPT !.kval[c] = {}, !.kpend[c] = {}]      \* a new thread starts with no thread-specific values
+  /\ UNCHANGED <<cur, got, cb, runq, lk, stk, freeS, flS, nS, anw, tg, bad, mx, sq, ob>>
 
 \* stack allocation. kind 0: default size from the free list, 1: default size fresh,
 \* 2: custom size (size class idx) from the per-class lists
@@ -390,12 +406,22 @@ UBodyStart(w, tag, tok) ==
   /\ UNCHANGED <<cur, got, cb, runq, lk, stk, freeD, freeS, flS, nD, nS, nL, anw, sv>>
 
 \* the start function returns v (kind 0) or calls the exit routine with v (kind 1)
+Owed(t) == {<<gh.kdt[p[1]], p[2]>> : p \in {q \in gh.kval[t] : q[1] \in gh.klive /\ gh.kdt[q[1]] # 0}}
 UBodyEnd(w, tag, v, kind) ==
   /\ tag # 0
   /\ \E t \in D : At(w, t, "user") /\ th[t].tag = tag
         /\ th' = [th EXCEPT ![t].pc = P("fin0", v, 0, 0), ![t].res = v]
+        /\ gh' = [gh EXCEPT !.kpend[t] = Owed(t)]
   /\ tg' = [tg EXCEPT ![tag].endv = v, ![tag].ended = TRUE, ![tag].cell = 5000 + tag]
-  /\ UNCHANGED <<cur, got, cb, runq, lk, stk, freeD, freeS, flS, nD, nS, nL, anw, bad, sv>>
+  /\ UNCHANGED <<cur, got, cb, runq, lk, stk, freeD, freeS, flS, nD, nS, nL, anw, bad, mx, sq, ob>>
+
+\* a thread acting on a cancellation request terminates like one calling the exit routine with CANCELED (-1)
+Cancelled(w, t) ==
+  /\ At(w, t, "tc2") /\ tg[th[t].tag].creq
+  /\ th' = [th EXCEPT ![t].pc = P("fin0", -1, 0, 0), ![t].res = -1]
+  /\ gh' = [gh EXCEPT !.kpend[t] = Owed(t)]
+  /\ tg' = [tg EXCEPT ![th[t].tag].endv = -1, ![th[t].tag].ended = TRUE, ![th[t].tag].cell = 0]
+  /\ UNCHANGED <<cur, got, cb, runq, lk, stk, freeD, freeS, flS, nD, nS, nL, anw, bad, mx, sq, ob>>
 
 \* finisher, under its own record lock, looks for a registered joiner
 FinWaiter(w, t, j) ==
@@ -978,6 +1004,108 @@ UFeMarkRet(w, tag, f, s) ==
   /\ \E t \in D : At(w, t, "fm9") /\ th[t].tag = tag /\ th[t].pc.x = f /\ th[t].pc.y = s /\ th' = SetPc(t, User)
   /\ UNCHANGED <<cur, got, cb, runq, ledger, tg, bad, sv>>
 
+\* ===================================================== thread-specific data
+KeyOK(k) == k >= 0 /\ k < NKeys
+ValOf(d, k) == IF \E p \in gh.kval[d] : p[1] = k THEN (CHOOSE p \in gh.kval[d] : p[1] = k)[2] ELSE 0
+\* ---- key creation: pop a cell from the free list, under the allocator's lock
+UKeyCreateCall(w, tag, dt) ==
+  /\ \E t \in D : At(w, t, "user") /\ th[t].tag = tag /\ th' = SetPc(t, P("kc00", dt, 0, 0))
+  /\ UNCHANGED <<cur, got, cb, runq, ledger, tg, bad, sv>>
+KaLock(w) ==
+  /\ gh.klock = -1
+  /\ \E t \in D : Runs(w, t) /\ th[t].pc.k \in {"kc00", "kd00"}
+        /\ th' = SetPc(t, IF th[t].pc.k = "kc00" THEN [th[t].pc EXCEPT !.k = "kc0"]
+                          ELSE IF gh.knext[th[t].pc.x] = -2 THEN [th[t].pc EXCEPT !.k = "kd0"]     \* the key is in use: go on
+                          ELSE P("kd8", th[t].pc.x, 1, 0))                                          \* not in use: fail
+  /\ gh' = [gh EXCEPT !.klock = w]
+  /\ UNCHANGED <<cur, got, cb, runq, ledger, tg, bad, mx, sq, ob>>
+KaUnlock(w) ==
+  /\ gh.klock = w
+  /\ \E t \in D : Runs(w, t) /\ th[t].pc.k \in {"kc8", "kd8"}
+        /\ th' = SetPc(t, [th[t].pc EXCEPT !.k = IF th[t].pc.k = "kc8" THEN "kc9" ELSE "kd9"])
+  /\ gh' = [gh EXCEPT !.klock = -1]
+  /\ UNCHANGED <<cur, got, cb, runq, ledger, tg, bad, mx, sq, ob>>
+KaLd(w, h) ==
+  /\ h = gh.kfree
+  /\ \E t \in D : At(w, t, "kc0")
+        /\ th' = SetPc(t, IF h = -1 THEN P5("kc8", th[t].pc.x, -1, 0, 0) ELSE [th[t].pc EXCEPT !.k = "kc1", !.y = h])
+  \* creation fails only when all keys are in use
+  /\ bad' = IF h = -1 /\ Cardinality(gh.klive) < NKeys THEN Fail("C10: key creation failed although keys are available") ELSE bad
+  /\ UNCHANGED <<cur, got, cb, runq, ledger, tg, sv>>
+KaNext(w, h, nx) ==
+  /\ KeyOK(h) /\ nx = gh.knext[h]
+  /\ \E t \in D : At(w, t, "kc1") /\ th[t].pc.y = h /\ th' = SetPc(t, [th[t].pc EXCEPT !.k = "kc2", !.z = nx])
+  /\ UNCHANGED <<cur, got, cb, runq, ledger, tg, bad, sv>>
+\* the CAS compares only the head pointer (the next pointer read earlier may be stale)
+KaCas(w, h, nx, ok) ==
+  /\ ok = Flag(gh.kfree = h)
+  /\ \E t \in D : At(w, t, "kc2") /\ th[t].pc.y = h /\ th[t].pc.z = nx
+        /\ th' = SetPc(t, IF ok = 1 THEN [th[t].pc EXCEPT !.k = "kc8"] ELSE P("kc0", th[t].pc.x, 0, 0))
+        /\ gh' = IF ok = 1 THEN [gh EXCEPT !.kfree = nx, !.knext[h] = -2, !.kdt[h] = th[t].pc.x, !.klive = @ \cup {h}] ELSE gh
+  \* C10: keys handed out are pairwise distinct while live
+  /\ bad' = IF ok = 1 /\ h \in gh.klive THEN Fail("C10: key creation handed out a key that is still live") ELSE bad
+  /\ UNCHANGED <<cur, got, cb, runq, ledger, tg, mx, sq, ob>>
+UKeyCreateRet(w, tag, rc, k) ==
+  /\ \E t \in D : At(w, t, "kc9") /\ th[t].tag = tag /\ th' = SetPc(t, User)
+        /\ (rc = 0) = (th[t].pc.y # -1) /\ (rc = 0 => k = th[t].pc.y)
+  /\ bad' = IF rc = 0 /\ ~KeyOK(k) THEN Fail("C10: key creation returned an index outside the valid range")
+            ELSE bad
+  /\ UNCHANGED <<cur, got, cb, runq, ledger, tg, sv>>
+\* ---- key deletion: push the cell back
+UKeyDeleteCall(w, tag, k) ==
+  /\ \E t \in D : At(w, t, "user") /\ th[t].tag = tag
+        /\ th' = SetPc(t, IF KeyOK(k) THEN P("kd00", k, 0, 0) ELSE P("kd9", k, 1, 0))
+  /\ UNCHANGED <<cur, got, cb, runq, ledger, tg, bad, sv>>
+KdLd(w, k, h) ==
+  /\ h = gh.kfree
+  /\ \E t \in D : At(w, t, "kd0") /\ th[t].pc.x = k /\ th' = SetPc(t, [th[t].pc EXCEPT !.k = "kd1", !.z = h])
+  /\ gh' = [gh EXCEPT !.knext[k] = h]
+  /\ UNCHANGED <<cur, got, cb, runq, ledger, tg, bad, mx, sq, ob>>
+KdCas(w, k, h, ok) ==
+  /\ ok = Flag(gh.kfree = h)
+  /\ \E t \in D : At(w, t, "kd1") /\ th[t].pc.x = k /\ th[t].pc.z = h
+        /\ th' = SetPc(t, IF ok = 1 THEN P("kd8", k, 0, 0) ELSE P("kd0", k, 0, 0))
+  /\ gh' = IF ok = 1 THEN [gh EXCEPT !.kfree = k, !.klive = @ \ {k}] ELSE gh
+  /\ UNCHANGED <<cur, got, cb, runq, ledger, tg, bad, mx, sq, ob>>
+UKeyDeleteRet(w, tag, k, rc) ==
+  /\ \E t \in D : At(w, t, "kd9") /\ th[t].tag = tag /\ th[t].pc.x = k /\ (rc = 0) = (th[t].pc.y = 0)
+        /\ th' = SetPc(t, User)
+  /\ UNCHANGED <<cur, got, cb, runq, ledger, tg, bad, sv>>
+\* ---- values: private to (thread, key); follow the thread to whichever worker runs it
+USetSpecific(w, tag, k, v, rc) ==
+  /\ \E t \in D : At(w, t, "user") /\ th[t].tag = tag /\ th' = th
+        /\ gh' = IF KeyOK(k) THEN [gh EXCEPT !.kval[t] = {p \in @ : p[1] # k} \cup (IF v = 0 THEN {} ELSE {<<k, v>>})] ELSE gh
+  /\ bad' = IF (rc = 0) # KeyOK(k) THEN Fail("C10: setspecific accepted an invalid key index or rejected a valid one") ELSE bad
+  /\ UNCHANGED <<cur, got, cb, runq, ledger, tg, mx, sq, ob>>
+UGetSpecific(w, tag, k, v) ==
+  /\ \E t \in D : At(w, t, "user") /\ th[t].tag = tag
+        /\ bad' = IF v # (IF KeyOK(k) THEN ValOf(t, k) ELSE 0)
+                  THEN Fail("C10: getspecific returned a value other than the one this thread stored under this key") ELSE bad
+  /\ UNCHANGED <<cur, got, cb, runq, th, ledger, tg, sv>>
+\* ---- destructors at thread termination
+\* a destructor call observed in the terminating thread: it must be one that is owed, exactly once
+UDtor(w, tag, dt, v) ==
+  /\ \E t \in D : At(w, t, "fin0") /\ th[t].tag = tag
+        /\ gh' = [gh EXCEPT !.kpend[t] = @ \ {<<dt, v>>}]
+        /\ bad' = IF <<dt, v>> \notin gh.kpend[t] /\ ~(v = 0 /\ \E k \in gh.klive : gh.kdt[k] = dt)   \* (a call with NULL for a live key is tolerated)
+                  THEN Fail("C11: destructor called with a value it is not owed (wrong value, no destructor, deleted key, NULL, or twice)") ELSE bad
+  /\ UNCHANGED <<cur, got, cb, runq, th, ledger, tg, mx, sq, ob>>
+
+\* ------------------------------------------------------------ cancellation
+UCancelCall(w, tag, ctag) ==
+  /\ \E t \in D : At(w, t, "user") /\ th[t].tag = tag /\ tg[ctag].d # 0
+        /\ th' = SetPc(t, P("cn0", tg[ctag].d, ctag, 0))
+  /\ UNCHANGED <<cur, got, cb, runq, ledger, tg, bad, sv>>
+UCancelRet(w, tag, ctag) ==
+  /\ \E t \in D : At(w, t, "cn9") /\ th[t].tag = tag /\ th[t].pc.y = ctag /\ th' = SetPc(t, User)
+  /\ UNCHANGED <<cur, got, cb, runq, ledger, tg, bad, sv>>
+UTestCancelCall(w, tag) ==
+  /\ \E t \in D : At(w, t, "user") /\ th[t].tag = tag /\ th' = SetPc(t, P("tc0", t, 0, 0))
+  /\ UNCHANGED <<cur, got, cb, runq, ledger, tg, bad, sv>>
+UTestCancelRet(w, tag) ==
+  /\ \E t \in D : At(w, t, "tc2") /\ th[t].tag = tag /\ ~tg[tag].creq /\ th' = SetPc(t, User)
+  /\ UNCHANGED <<cur, got, cb, runq, ledger, tg, bad, sv>>
+
 \* ============================================================== properties
 OK == bad = "ok"
 
@@ -1010,6 +1138,8 @@ ReapOnce == \A t \in Tag : tg[t].reaped <= 1
 NoUseAfterFree ==
   \A w \in W : cur[w] # 0 /\ cb[w].k = "none" => (th[cur[w]].stk # 0 => stk[th[cur[w]].stk].st = "live")
 StackOwner == \A s \in S : stk[s].st = "live" /\ stk[s].own # 0 => th[stk[s].own].stk = s
+\* the "in use" marker of a key cell agrees with the user-level view of live keys
+KeyConsistent == gh.klock = -1 => \A k \in 0..(NKeys - 1) : (gh.knext[k] = -2) = (k \in gh.klive)
 FreeListsDisjoint ==
   \A w1, w2 \in W : \A i \in 1..Len(freeD[w1]) : \A j \in 1..Len(freeD[w2]) :
      (w1 # w2 \/ i # j) => freeD[w1][i] # freeD[w2][j]
